@@ -22,12 +22,12 @@ def load_all() -> None:
 
 # property -> rule ids (DESIGN.md section 0 / 6)
 PROPERTY_RULES: Dict[str, List[str]] = {
-    "C01": ["STORE-4", "STORE-5", "STORE-6", "STORE-7", "STORE-8", "CTRL-1", "CTRL-2", "CTRL-5", "CTRL-9", "CTRL-10", "CTRL-11", "STORE-11", "STORE-12", "ORD-3", "CTRL-13", "STORE-14", "STORE-15", "STORE-16", "STORE-19"],
+    "C01": ["STORE-4", "STORE-5", "STORE-6", "STORE-7", "STORE-8", "CTRL-1", "CTRL-2", "CTRL-5", "CTRL-9", "CTRL-10", "CTRL-11", "STORE-11", "STORE-12", "ORD-3", "CTRL-13", "STORE-14", "STORE-15", "STORE-16", "STORE-19", "STORE-20"],
     "C02": ["STORE-5", "TOTAL-3", "TOTAL-4", "TOTAL-6", "TOTAL-7", "USE-1", "ATTR-1", "QUERY-4", "QUERY-5", "QUERY-6", "LOWER-14", "QUERY-8", "CTRL-13", "STORE-15", "STORE-16", "CTRL-5", "STORE-12", "QUERY-2"],
     "C03": ["CTRL-5", "CTRL-6", "STORE-8", "STORE-12", "DISP-6", "TOTAL-6", "QUERY-4", "QUERY-5", "QUERY-6", "QUERY-7", "QUERY-8", "CTRL-13", "STORE-14", "STORE-15", "STORE-17", "STORE-18", "TOTAL-2", "STORE-6", "STORE-7", "STORE-11"],
     "C04": ["STORE-6", "STORE-7", "STORE-8", "DISP-9", "NAME-3", "NAME-4", "STORE-17"],
     "C05": ["STORE-1", "STORE-2", "STORE-3", "STORE-4", "STORE-11", "STORE-13", "ORD-3", "STORE-14", "STORE-16", "NAME-3"],
-    "C06": ["CTRL-1", "CTRL-2", "CTRL-3", "CTRL-4", "CTRL-8", "CTRL-9", "CTRL-10", "CTRL-11", "STORE-5", "CTRL-12", "CTRL-14"],
+    "C06": ["CTRL-1", "CTRL-2", "CTRL-3", "CTRL-4", "CTRL-8", "CTRL-9", "CTRL-10", "CTRL-11", "STORE-5", "CTRL-12", "CTRL-14", "STORE-20", "DISP-12"],
     "C07": ["DISP-5", "DISP-6", "CTRL-5", "CTRL-7", "LOWER-1", "LOWER-2", "LOWER-3", "LOWER-4", "LOWER-6", "LOWER-7", "LOWER-8", "LOWER-9", "LOWER-10", "LOWER-11", "LOWER-12", "LOWER-13", "LOWER-14", "LOWER-15", "STORE-10", "TOTAL-6", "USE-1", "ATTR-1", "CTRL-12", "LOWER-16", "ORD-6", "LOWER-17", "LOWER-19", "DISP-2", "LOWER-20", "STORE-6", "LOWER-21"],
     "C08": ["LOWER-1", "LOWER-2", "LOWER-3", "LOWER-4", "LOWER-6", "LOWER-12", "LOWER-13", "STORE-10", "ORD-6", "LOWER-17", "LOWER-19", "DISP-2", "LOWER-20", "LOWER-21"],
     "C09": ["TABLE-1", "TABLE-2", "TABLE-3", "TABLE-4", "TABLE-5", "TABLE-6", "ORD-5", "ORD-6", "TABLE-7", "TABLE-8"],
